@@ -74,3 +74,45 @@ func specLargestUnit(d time.Duration) int64 {
 //@ at Session).SendCommand assert [C16.page-start] cmd.Req.InstanceStart == uint8(len(recordIDs)+1)
 //@ at Session).SendCommand assert [C16.page-room] len(recordIDs) < 255
 //@ ensures [C16.no-partial] result1 != nil ==> isnil(result0)
+
+// ---- sensor_info.go: one enumeration per entity, and the choice between the two entity-ID families
+//
+// getSensorMap asks for each entity of the list in turn (through the caller's context, session and
+// command) and files what getEntityInstances returned under that very entity; an error abandons the
+// whole map. GetSensorInfo asks for the standard (IPMI) entity IDs first and turns to the DCMI ones
+// exactly when that yielded an error or no record ID at all.
+
+//@ func getSensorMap
+//@ props C16
+//@ requires [map.args] !isnil(ctx) && !isnil(s) && !isnil(cmd)
+//@ at getEntityInstances assert [C16.entity-asked] cmd.Req.Entity == entities[rangeindex+1]
+//@ at getEntityInstances assert [C16.entity-var] entityID == entities[rangeindex+1]
+//@ at getEntityInstances assert [C16.entity-args] arg[*GetDCMISensorInfoCmd](2) == cmd && arg[context.Context](0) == ctx
+//@ at getEntityInstances assert [C16.entity-sess] arg[bmc.Session](1) == s
+//@ at mapupdate assert [C16.entity-stored] arg[ipmi.EntityID](1) == entityID
+//@ at mapupdate assert [C16.entity-value] len(arg[[]ipmi.RecordID](2)) == len(recordIDs) && (len(recordIDs) > 0 ==> &arg[[]ipmi.RecordID](2)[0] == &recordIDs[0])
+//@ ensures [C16.map-no-partial] result1 != nil ==> isnil(result0)
+
+// CountRecordIDs sums over the map in an order the language does not fix; its result is tied to the
+// ghost mapLenSum (of which the engine knows only: not negative, positive exactly when some entry is
+// not empty). The contract is assumed, not proved (no fold over an unordered map in the contract
+// language); /verif/findings/count_record_ids_test.go checks it exhaustively for maps of up to three
+// entities with up to three record IDs each (a bounded stand-in, see DESIGN.md 14.7).
+//@ func (sensorMap).CountRecordIDs
+//@ props C16
+//@ trusted
+//@ assigns nothing
+//@ ensures [C16.count] result == mapLenSum(m)
+
+//@ func GetSensorInfo
+//@ props C16
+//@ requires [info.args] !isnil(ctx) && !isnil(s)
+//@ at getSensorMap#1 assert [C16.standard-first] len(arg[[]ipmi.EntityID](3)) == 3 && &arg[[]ipmi.EntityID](3)[0] == &ipmiSensorEntityIDs[0] && arg[context.Context](0) == ctx && arg[bmc.Session](1) == s
+//@ at getSensorMap#2 assert [C16.fallback-list] len(arg[[]ipmi.EntityID](3)) == 3 && &arg[[]ipmi.EntityID](3)[0] == &dcmiSensorEntityIDs[0] && arg[context.Context](0) == ctx && arg[bmc.Session](1) == s
+//@ at getSensorMap#2 assert [C16.fallback-when] err != nil || mapLenSum(sensors) == 0
+//@ at return#1 assert [C16.fallback-unless] err == nil && mapLenSum(sensors) > 0
+//@ at return#1 assert [C16.standard-fields] arg[error](1) == nil && len(arg[*SensorInfo](0).Inlet) == len(sensors[ipmi.EntityIDAirInlet]) && len(arg[*SensorInfo](0).CPU) == len(sensors[ipmi.EntityIDProcessor]) && len(arg[*SensorInfo](0).Baseboard) == len(sensors[ipmi.EntityIDSystemBoard])
+//@ at return#1 assert [C16.standard-data] (len(arg[*SensorInfo](0).Inlet) > 0 ==> &arg[*SensorInfo](0).Inlet[0] == &sensors[ipmi.EntityIDAirInlet][0]) && (len(arg[*SensorInfo](0).CPU) > 0 ==> &arg[*SensorInfo](0).CPU[0] == &sensors[ipmi.EntityIDProcessor][0]) && (len(arg[*SensorInfo](0).Baseboard) > 0 ==> &arg[*SensorInfo](0).Baseboard[0] == &sensors[ipmi.EntityIDSystemBoard][0])
+//@ at return#2 assert [C16.fallback-error] arg[error](1) == err && err != nil && isnil(arg[*SensorInfo](0))
+//@ at return#3 assert [C16.dcmi-fields] arg[error](1) == nil && len(arg[*SensorInfo](0).Inlet) == len(sensors[ipmi.EntityIDDCMIAirInlet]) && len(arg[*SensorInfo](0).CPU) == len(sensors[ipmi.EntityIDDCMIProcessor]) && len(arg[*SensorInfo](0).Baseboard) == len(sensors[ipmi.EntityIDDCMISystemBoard])
+//@ at return#3 assert [C16.dcmi-data] (len(arg[*SensorInfo](0).Inlet) > 0 ==> &arg[*SensorInfo](0).Inlet[0] == &sensors[ipmi.EntityIDDCMIAirInlet][0]) && (len(arg[*SensorInfo](0).CPU) > 0 ==> &arg[*SensorInfo](0).CPU[0] == &sensors[ipmi.EntityIDDCMIProcessor][0]) && (len(arg[*SensorInfo](0).Baseboard) > 0 ==> &arg[*SensorInfo](0).Baseboard[0] == &sensors[ipmi.EntityIDDCMISystemBoard][0])
